@@ -163,6 +163,65 @@ def make_family(ctx):
     return logic, fam
 
 def bulk_extension(rng, prems, modal):
+    return proofwl.bulk_premises(rng, prems, modal)
+
+def two_cfgs(srng, logic, prems, conc):
+    out = []
+    for k in range(2):
+        opts = dict(proofwl.ALL_OPT_COMBOS[srng.randrange(4)])
+        opts['is_build_models'] = (k == 0)          # one run with models (for diagnosis), one without
+        opts['max_steps'] = GUARD_STEPS
+        out.append(proofsim.Config(logic, prems, conc, opts, order_seed=0 if k == 0 else srng.getrandbits(32),
+            cache=srng.choice(proofsim.CACHE_SIZES), drive=srng.choice(('build', 'step'))))
+    return out
+
+def make_family(ctx):
+    rng = ctx.rng('workload')
+    logic = proofwl.pick_logic(rng, ctx.index, SALTS)
+    prems, conc = proofwl.gen_case(rng, logic)
+    serial = refsem.get(logic).frame == 'D'
+    if serial and rng.random() < 0.4:
+        prems, conc = proofwl.dead_end_template(rng)
+    prof = proofwl.profile_for(rng, logic)
+    fam = dict(base=(prems, conc))
+    rp = list(prems)
+    rp.insert(rng.randrange(len(rp) + 1), conc)
+    if rng.random() < 0.25:
+        rp.insert(rng.randrange(len(rp) + 1), conc)       # the shared sentence occurs twice
+    if rng.random() < 0.5:
+        # near-miss distractors: sentences that differ from the shared one in a single detail
+        # (argument order, a subscript, operand order, bound variable) placed around it
+        for v in near_variants(rng, conc)[:rng.choice((1, 2))]:
+            rp.insert(rng.randrange(len(rp) + 1) if rng.random() < 0.5 else len(rp), v)
+    fam['reflexive'] = (rp, conc)
+    if rng.random() < 0.35:
+        # literal reflexivity: the shared sentence is a literal, surrounded by literals that differ
+        # from it in one detail (closure must tell them apart and still find the real clash)
+        cs = rng.sample(range(4), 2)
+        lit = rng.choice((
+            ('P', (rng.randrange(2), rng.choice((0, 0, 1)), 2), (('c', cs[0], 0), ('c', cs[1], rng.choice((0, 0, 1))))),
+            ('P', (0, 0, 3), (('c', cs[0], 0), ('c', cs[1], 0), ('c', cs[0], 0))),
+            ('P', (0, 0, 1), (('c', cs[0], rng.choice((0, 1, 11))),)),
+            ('A', rng.randrange(3), rng.choice((0, 1, 10)))))
+        if rng.random() < 0.3:
+            lit = ('O', 'Negation', (lit,))
+        vs = near_variants(rng, lit)[:rng.choice((1, 2, 3))]
+        k = rng.randrange(len(vs) + 1)
+        fam['reflexive'] = (vs[:k] + [lit] + vs[k:] + ([rng.choice(prems)] if prems and rng.random() < 0.3 else []), lit)
+    extra = lexgen.gen_sentence(rng, prof, depth=rng.choice((0, 1, 2)))
+    if refsem.get(logic).modal and rng.random() < (0.6 if serial else 0.3):
+        # a premise that only opens or demands further worlds
+        x = ('A', rng.randrange(3), 0)
+        extra = rng.choice((('O', 'Necessity', (('O', 'Possibility', (x,)),)), ('O', 'Possibility', (x,)), ('O', 'Necessity', (x,))))
+    mp = list(prems)
+    mp.insert(0 if rng.random() < 0.3 else rng.randrange(len(mp) + 1), extra)
+    fam['extended'] = (mp, conc)
+    fam['renamed'] = rename(rng, prems, conc)
+    if prems and rng.random() < 0.5:
+        fam['extended2'] = (bulk_extension(rng, prems, refsem.get(logic).modal), conc)
+    return logic, fam
+
+def bulk_extension(rng, prems, modal):
     """Many extra premises at once, all repeating one sentence of the argument next to letters of
     their own (so that the same node content piles up on a branch, or in many worlds)."""
     pool = [x for s in prems for x in refsem.walk(s) if not refsem._free_vars(x)]
